@@ -229,3 +229,79 @@ Proof.
     try discriminate; split; try reflexivity; intros; try discriminate.
   inversion Hrun. reflexivity.
 Qed.
+
+(* ---- the REPORTED value: dispatch_printed on two files that are permutations of each other --- *)
+Definition item_lines (its : list item) : list line :=
+  flat_map (fun it => match it with Msg l _ => [l] | Junk => [] end) its.
+Definition item_bytes (its : list item) : Z :=
+  fold_right (fun it acc => match it with Msg _ rd => (rd + acc)%Z | Junk => acc end) 0%Z its.
+
+Lemma scan_items_ok : forall its ls tot, scan_items its = (ls, tot, true) ->
+  ls = item_lines its /\ tot = item_bytes its.
+Proof.
+  induction its as [|it its IH]; intros ls tot H; simpl in H.
+  - inversion H; subst. split; reflexivity.
+  - destruct it as [l rd|]; [|discriminate].
+    destruct (scan_items its) as [[ls' tot'] ok'] eqn:E. inversion H; subst.
+    destruct (IH ls' tot' eq_refl) as [-> ->]. split; reflexivity.
+Qed.
+
+Lemma item_bytes_perm : forall its1 its2, Permutation its1 its2 -> item_bytes its1 = item_bytes its2.
+Proof.
+  induction 1 as [|x l l' _ IH|x y l|l l' l'' _ IH1 _ IH2]; simpl.
+  - reflexivity.
+  - destruct x; rewrite IH; reflexivity.
+  - destruct x, y; lia.
+  - congruence.
+Qed.
+
+Lemma item_lines_perm : forall its1 its2, Permutation its1 its2 -> Permutation (item_lines its1) (item_lines its2).
+Proof. intros. unfold item_lines. apply Permutation_flat_map. assumption. Qed.
+
+Lemma pick_msgs : forall ls o,
+  map snd (map (fun i => nth i (msgs ls) (l_path dummy_line, dummy_line)) o) = pick ls dummy_line o.
+Proof.
+  intros ls o. unfold pick, msgs. rewrite map_map. apply map_ext. intros i.
+  change (l_path dummy_line, dummy_line) with ((fun l => (l_path l, l)) dummy_line).
+  rewrite map_nth. reflexivity.
+Qed.
+
+(* C13_perm_invariant for what load_from_file's body loop REPORTS: two files holding the same
+   scanned messages (with the bytes each took) in any order give the same return value - the
+   number of lines when every line is accepted, -rd_total-1 otherwise - and, when accepted, the
+   same state *)
+Theorem perm_invariant_reported : forall a apropos fuel, wf_app a -> declared a apropos ->
+  forall (its1 its2 : list item) ls1 ls2 tot1 tot2 ps1 ps2,
+    scan_items its1 = (ls1, tot1, true) -> scan_items its2 = (ls2, tot2, true) ->
+    rd_nonneg its1 -> Permutation its1 its2 -> NoDup (map l_path ls1) ->
+    pushes line apropos fuel (msgs ls1) = Some ps1 -> pushes line apropos fuel (msgs ls2) = Some ps2 ->
+    ranked ps1 -> ranked ps2 ->
+    forall s0, length s0 = length a ->
+    exists r st1 st2,
+      dispatch_printed apropos fuel a its1 s0 = Some (r, st1) /\
+      dispatch_printed apropos fuel a its2 s0 = Some (r, st2) /\
+      ((0 <= r)%Z -> st1 = st2 /\ r = Z.of_nat (length ls1)) /\
+      ((r < 0)%Z -> r = (- tot1 - 1)%Z).
+Proof.
+  intros a apropos fuel WF DECL its1 its2 ls1 ls2 tot1 tot2 ps1 ps2 Hs1 Hs2 Hnn Hperm Hnd Hp1 Hp2 Hr1 Hr2 s0 Hs0.
+  destruct (scan_items_ok _ _ _ Hs1) as [El1 Et1]. destruct (scan_items_ok _ _ _ Hs2) as [El2 Et2].
+  assert (Hpl : Permutation ls1 ls2) by (subst; apply item_lines_perm; assumption).
+  assert (Htot : tot1 = tot2) by (subst; apply item_bytes_perm; assumption).
+  destruct (perm_invariant_loader a apropos fuel WF DECL ls1 ls2 ps1 ps2 (l_path dummy_line, dummy_line)
+              Hnd Hpl Hp1 Hp2 Hr1 Hr2) as (o1 & o2 & Ho1 & Ho2 & Hlen & Hrun).
+  specialize (Hrun s0 Hs0). cbv zeta in Hrun. rewrite !pick_msgs in Hrun.
+  unfold dispatch_printed. rewrite Hs1, Hs2.
+  change (map (fun l : line => (l_path l, l)) ls1) with (msgs ls1).
+  change (map (fun l : line => (l_path l, l)) ls2) with (msgs ls2).
+  rewrite Ho1, Ho2.
+  destruct (apply_all a (pick ls1 dummy_line o1) s0) as [st1 g1].
+  destruct (apply_all a (pick ls2 dummy_line o2) s0) as [st2 g2].
+  cbn [fst snd] in Hrun. destruct Hrun as [Hg Hst]. subst g2.
+  assert (Hll : length ls1 = length ls2) by (apply Permutation_length; assumption).
+  destruct (scan_items_spec its1 ls1 tot1 true Hnn Hs1) as [Ht _].
+  destruct g1.
+  - exists (Z.of_nat (length ls1)), st1, st2. rewrite <- Hll.
+    split; [reflexivity|]. split; [reflexivity|]. split; [intros _; split; [exact (Hst eq_refl) | reflexivity]|]. lia.
+  - exists (- tot1 - 1)%Z, st1, st2. rewrite <- Htot.
+    split; [reflexivity|]. split; [reflexivity|]. split; [lia | reflexivity].
+Qed.
